@@ -1,1 +1,352 @@
-def main : IO Unit := IO.println "stub"
+/-
+  drv_iface — runs the InterfaceSM model on histories (property C07).
+
+  stdin: one JSON object per line
+    {"impls":[spec…], "disps":[spec…], "ops":[op…]}
+  impl spec (index = ImplId):
+    {"k":"leaf","tag":T,"reads":[[key, null | {"d":v}]…]}     body returns (T, values…)
+    {"k":"const","v":v}                                         Value(v)
+    {"k":"opt","key":K,"d": null | {"d":v}}                     Option(K[, v])
+    {"k":"sw","key":K,"tbl":[[alias, leaf]…],"dflt": leaf|null,"cb": n|null}
+                                                               a frozen dispatching dataset
+  dispatch-dataset spec (index = DispId): {"key":Q,"map":[[from,to]…]}   body: MAP.get(x, x)
+  ops: ["new",d,disp,dflt|null,cb|null] ["reg",d,alias,i] ["ovl",[[d,[alias…]]…],i]
+       ["setd",d,disp] ["iface",I,disp,[[name,d]…]] ["impl",[I…],[alias…],[[name,i]…]]
+       ["eval",d,{opts}]
+  disp: ["missing"] | ["key",K] | ["keyd",K,v] | ["ds",n]
+  values: JSON scalars, arrays (lists), {"t":[…]} (tuples).  Callback n maps v to ("cb", n, v).
+  stdout: one line per input line, the observations of the operations joined by " | ".
+-/
+import Lean.Data.Json
+import LabreaModel.InterfaceSM
+open Lean Labrea Labrea.Iface
+
+namespace DrvIface
+
+/-! ### JSON -> model values (fuel-bounded, total) -/
+
+def jsonToV : Nat → Json → Except String V
+  | 0, _ => .error "value too deep"
+  | _ + 1, .null => .ok .none
+  | _ + 1, .bool b => .ok (.bool b)
+  | _ + 1, .num n => if n.exponent = 0 then .ok (.int n.mantissa) else .error "non-integer number"
+  | _ + 1, .str s => .ok (.str s)
+  | f + 1, .arr a => (a.toList.mapM (jsonToV f)).map V.list
+  | f + 1, j@(.obj _) =>
+    match j.getObjVal? "t" with
+    | .ok (.arr a) => (a.toList.mapM (jsonToV f)).map V.tuple
+    | _ => .error "unsupported object value"
+
+def toV (j : Json) : Except String V := jsonToV 8 j
+
+def toAlias (j : Json) : Except String Alias := do
+  let v ← toV j
+  match aliasOf v with
+  | some a => pure a
+  | Option.none => throw "alias not hashable"
+
+def optWrapped (j : Json) : Except String (Option V) :=
+  match j with
+  | .null => pure Option.none
+  | _ => do
+    let d ← j.getObjVal? "d"
+    let v ← toV d
+    pure (some v)
+
+/-! ### the concrete environment -/
+
+structure LeafSpec where
+  tag : String
+  reads : List (String × Option V)
+
+inductive ImplSpec where
+  | leaf (l : LeafSpec)
+  | const (v : V)
+  | opt (key : String) (dflt : Option V)
+  | sw (key : String) (tbl : List (Alias × LeafSpec)) (dflt : Option LeafSpec) (cb : Option Nat)
+
+structure DispSpec where
+  key : String
+  map : List (V × V)
+
+/-- the arguments of a body: present option, else its default, else KeyNotFoundError -/
+def readArgs (o : Opts) : List (String × Option V) → Except Err (List V)
+  | [] => .ok []
+  | (k, d) :: rest =>
+    match alookup k o, d with
+    | some v, _ => (readArgs o rest).map (v :: ·)
+    | Option.none, some dv => (readArgs o rest).map (dv :: ·)
+    | Option.none, Option.none => .error (.keyNotFound k)
+
+def readKeys (o : Opts) : List (String × Option V) → Except Err (List String)
+  | [] => .ok []
+  | (k, d) :: rest =>
+    match alookup k o, d with
+    | some _, _ => (readKeys o rest).map (k :: ·)
+    | Option.none, some _ => readKeys o rest
+    | Option.none, Option.none => .error (.keyNotFound k)
+
+def LeafSpec.val (l : LeafSpec) (o : Opts) : Except Err V :=
+  (readArgs o l.reads).map fun vs => V.tuple (V.str l.tag :: vs)
+
+def LeafSpec.keys (l : LeafSpec) (o : Opts) : Except Err (List String) := readKeys o l.reads
+
+def cbFun (n : Nat) (v : V) : V := .tuple [.str "cb", .int n, v]
+
+/-- the frozen nested dataset `sw`: a `Cfg` over a private environment of leaves -/
+def swEnv (tbl : List (Alias × LeafSpec)) (dflt : Option LeafSpec) : Env where
+  implVal := fun i o => match (tbl.map Prod.snd ++ dflt.toList)[i]? with
+    | some l => l.val o
+    | Option.none => .error (.other "no leaf")
+  implKeys := fun i o => match (tbl.map Prod.snd ++ dflt.toList)[i]? with
+    | some l => l.keys o
+    | Option.none => .error (.other "no leaf")
+  dispVal := fun _ _ => .error (.other "no dispatch dataset")
+  dispKeys := fun _ _ => .error (.other "no dispatch dataset")
+  cb := cbFun
+
+def swCfg (key : String) (tbl : List (Alias × LeafSpec)) (dflt : Option LeafSpec)
+    (cb : Option Nat) : Cfg :=
+  { dispatch := .key key,
+    table := (List.range tbl.length).zip tbl |>.foldl (fun t p => tinsert p.2.1 p.1 t) [],
+    default := dflt.map fun _ => tbl.length,
+    callback := cb }
+
+def ImplSpec.val (o : Opts) : ImplSpec → Except Err V
+  | .leaf l => l.val o
+  | .const v => .ok v
+  | .opt k d => match alookup k o, d with
+    | some v, _ => .ok v
+    | Option.none, some dv => .ok dv
+    | Option.none, Option.none => .error (.keyNotFound k)
+  | .sw key tbl dflt cb => den (swEnv tbl dflt) (swCfg key tbl dflt cb) o
+
+def ImplSpec.keys (o : Opts) : ImplSpec → Except Err (List String)
+  | .leaf l => l.keys o
+  | .const _ => .ok []
+  | .opt k d => match alookup k o, d with
+    | some _, _ => .ok [k]
+    | Option.none, some _ => .ok []
+    | Option.none, Option.none => .error (.keyNotFound k)
+  | .sw key tbl dflt cb =>
+    match select (swEnv tbl dflt) (swCfg key tbl dflt cb) o with
+    | .error e => .error e
+    | .ok ch => chosenKeys (swEnv tbl dflt) (swCfg key tbl dflt cb) o ch
+
+def DispSpec.val (d : DispSpec) (o : Opts) : Except Err V :=
+  match alookup d.key o with
+  | Option.none => .error (.keyNotFound d.key)
+  | some v => match d.map.find? (fun p => p.1 == v) with
+    | some p => .ok p.2
+    | Option.none => .ok v
+
+def DispSpec.keys (d : DispSpec) (o : Opts) : Except Err (List String) :=
+  match alookup d.key o with
+  | Option.none => .error (.keyNotFound d.key)
+  | some _ => .ok [d.key]
+
+def mkEnv (impls : Array ImplSpec) (disps : Array DispSpec) : Env where
+  implVal := fun i o => match impls[i]? with
+    | some sp => sp.val o
+    | Option.none => .error (.other "no impl")
+  implKeys := fun i o => match impls[i]? with
+    | some sp => sp.keys o
+    | Option.none => .error (.other "no impl")
+  dispVal := fun i o => match disps[i]? with
+    | some sp => sp.val o
+    | Option.none => .error (.other "no disp")
+  dispKeys := fun i o => match disps[i]? with
+    | some sp => sp.keys o
+    | Option.none => .error (.other "no disp")
+  cb := cbFun
+
+/-! ### parsing -/
+
+def parseLeaf (j : Json) : Except String LeafSpec := do
+  let tag ← (← j.getObjVal? "tag").getStr?
+  let reads ← (← j.getObjVal? "reads").getArr?
+  let rs ← reads.toList.mapM fun r => do
+    let a ← r.getArr?
+    let k ← (a.getD 0 .null).getStr?
+    let d ← optWrapped (a.getD 1 .null)
+    pure (k, d)
+  pure ⟨tag, rs⟩
+
+def parseOptNat (j : Json) : Except String (Option Nat) :=
+  match j with
+  | .null => pure Option.none
+  | _ => do let n ← j.getNat?; pure (some n)
+
+def parseImpl (j : Json) : Except String ImplSpec := do
+  let k ← (← j.getObjVal? "k").getStr?
+  match k with
+  | "leaf" => do let l ← parseLeaf j; pure (.leaf l)
+  | "const" => do let v ← toV (← j.getObjVal? "v"); pure (.const v)
+  | "opt" => do
+    let key ← (← j.getObjVal? "key").getStr?
+    let d ← optWrapped ((j.getObjVal? "d").toOption.getD .null)
+    pure (.opt key d)
+  | "sw" => do
+    let key ← (← j.getObjVal? "key").getStr?
+    let tblJ ← (← j.getObjVal? "tbl").getArr?
+    let tbl ← tblJ.toList.mapM fun e => do
+      let a ← e.getArr?
+      let al ← toAlias (a.getD 0 .null)
+      let l ← parseLeaf (a.getD 1 .null)
+      pure (al, l)
+    let dflt ← match (j.getObjVal? "dflt").toOption.getD .null with
+      | .null => pure Option.none
+      | dj => do let l ← parseLeaf dj; pure (some l)
+    let cb ← parseOptNat ((j.getObjVal? "cb").toOption.getD .null)
+    pure (.sw key tbl dflt cb)
+  | _ => throw s!"unknown impl kind {k}"
+
+def parseDispSpec (j : Json) : Except String DispSpec := do
+  let key ← (← j.getObjVal? "key").getStr?
+  let mp ← (← j.getObjVal? "map").getArr?
+  let m ← mp.toList.mapM fun e => do
+    let a ← e.getArr?
+    let f ← toV (a.getD 0 .null)
+    let t ← toV (a.getD 1 .null)
+    pure (f, t)
+  pure ⟨key, m⟩
+
+def parseDispatch (j : Json) : Except String Dispatch := do
+  let a ← j.getArr?
+  let k ← (a.getD 0 .null).getStr?
+  match k with
+  | "missing" => pure .missing
+  | "key" => do let s ← (a.getD 1 .null).getStr?; pure (.key s)
+  | "keyd" => do
+    let s ← (a.getD 1 .null).getStr?
+    let v ← toV (a.getD 2 .null)
+    pure (.keyDefault s v)
+  | "ds" => do let n ← (a.getD 1 .null).getNat?; pure (.dataset n)
+  | _ => throw s!"unknown dispatch {k}"
+
+def parseOpts (j : Json) : Except String Opts := do
+  let o ← j.getObj?
+  o.toList.mapM fun (k, vj) => do
+    let v ← toV vj
+    pure (k, v)
+
+def parseOp (j : Json) : Except String Op := do
+  let a ← j.getArr?
+  let k ← (a.getD 0 .null).getStr?
+  let arg (i : Nat) : Json := a.getD i .null
+  match k with
+  | "new" => do
+    let d ← (arg 1).getNat?
+    let disp ← parseDispatch (arg 2)
+    let dflt ← parseOptNat (arg 3)
+    let cb ← parseOptNat (arg 4)
+    pure (.newDs d disp dflt cb)
+  | "reg" => do
+    let d ← (arg 1).getNat?
+    let al ← toAlias (arg 2)
+    let i ← (arg 3).getNat?
+    pure (.register d al i)
+  | "ovl" => do
+    let ts ← (arg 1).getArr?
+    let targets ← ts.toList.mapM fun t => do
+      let ta ← t.getArr?
+      let d ← (ta.getD 0 .null).getNat?
+      let as ← (ta.getD 1 .null).getArr?
+      let als ← as.toList.mapM toAlias
+      pure (d, als)
+    let i ← (arg 2).getNat?
+    pure (.overload targets i)
+  | "setd" => do
+    let d ← (arg 1).getNat?
+    let disp ← parseDispatch (arg 2)
+    pure (.setDispatch d disp)
+  | "iface" => do
+    let I ← (arg 1).getNat?
+    let disp ← parseDispatch (arg 2)
+    let ms ← (arg 3).getArr?
+    let members ← ms.toList.mapM fun m => do
+      let ma ← m.getArr?
+      let n ← (ma.getD 0 .null).getStr?
+      let d ← (ma.getD 1 .null).getNat?
+      pure (n, d)
+    pure (.defineInterface I disp members)
+  | "impl" => do
+    let is ← (arg 1).getArr?
+    let ifs ← is.toList.mapM fun x => x.getNat?
+    let as ← (arg 2).getArr?
+    let als ← as.toList.mapM toAlias
+    let ps ← (arg 3).getArr?
+    let provided ← ps.toList.mapM fun p => do
+      let pa ← p.getArr?
+      let n ← (pa.getD 0 .null).getStr?
+      let i ← (pa.getD 1 .null).getNat?
+      pure (n, i)
+    pure (.defineImpl ifs als provided)
+  | "eval" => do
+    let d ← (arg 1).getNat?
+    let o ← parseOpts (arg 2)
+    pure (.evaluate d o)
+  | _ => throw s!"unknown op {k}"
+
+/-! ### canonical printing -/
+
+def showV : Nat → V → String
+  | 0, _ => "…"
+  | _ + 1, .none => "null"
+  | _ + 1, .bool b => if b then "true" else "false"
+  | _ + 1, .int i => toString i
+  | _ + 1, .str s => "\"" ++ s ++ "\""
+  | f + 1, .list xs => "[" ++ ",".intercalate (xs.map (showV f)) ++ "]"
+  | f + 1, .tuple xs => "(" ++ ",".intercalate (xs.map (showV f)) ++ ")"
+  | _ + 1, .missing => "MISSING"
+  | _ + 1, _ => "?"
+
+def showFp (fp : Fingerprint) : String :=
+  "[" ++ ",".intercalate (fp.map fun p => p.1 ++ "=" ++ match p.2 with
+    | some v => showV 10 v
+    | Option.none => "<absent>") ++ "]"
+
+def showErr : Err → String
+  | .keyNotFound k => "KeyNotFoundError:" ++ k
+  | .switchError _ => "SwitchError"
+  | .unhashable => "TypeError:unhashable"
+  | .other t => "Other:" ++ t
+
+def showObs : Obs → String
+  | .done => "ok"
+  | .valueError => "ValueError"
+  | .typeError (.unknownMember n) => "TypeError:unknown:" ++ n
+  | .typeError (.missingAbstract n) => "TypeError:abstract:" ++ n
+  | .eval out => match out.res with
+    | .ok v => "val=" ++ showV 10 v ++ (if out.hit then " hit" else " miss") ++ " fp=" ++
+        (match out.fp with | some fp => showFp fp | Option.none => "-")
+    | .error e => "err=" ++ showErr e
+
+def runLine (line : String) : String :=
+  let r : Except String String := do
+    let j ← Json.parse line
+    let implsJ ← (← j.getObjVal? "impls").getArr?
+    let impls ← implsJ.mapM parseImpl
+    let dispsJ ← (← j.getObjVal? "disps").getArr?
+    let disps ← dispsJ.mapM parseDispSpec
+    let opsJ ← (← j.getObjVal? "ops").getArr?
+    let ops ← opsJ.toList.mapM parseOp
+    let env := mkEnv impls disps
+    pure (" | ".intercalate ((runObs env St.init ops).map showObs))
+  match r with
+  | .ok s => s
+  | .error e => "PARSE-ERROR " ++ e
+
+end DrvIface
+
+def main : IO Unit := do
+  let stdin ← IO.getStdin
+  let stdout ← IO.getStdout
+  let mut go := true
+  while go do
+    let line ← stdin.getLine
+    if line.isEmpty then
+      go := false
+    else
+      let l := (line.trimAsciiEnd).toString
+      if !l.isEmpty then stdout.putStrLn (DrvIface.runLine l)
